@@ -62,7 +62,7 @@ Init == /\ tid \in 1..Len(Traces)
 
 Next == /\ l <= Len(Traces[tid].steps)
         /\ LET line == Traces[tid].steps[l]
-               exp  == ApplyOn(Traces[tid].backend, cur, line.op)
+               exp  == ApplyOn(Traces[tid].backend, Traces[tid].fmt, cur, line.op)
                \* the recorder sets "same" when the projection is identical to the previous line's (trace compression)
                js   == IF line.same THEN obs ELSE line.state
                got  == IF line.same /\ l > 1 /\ bad = 0 THEN [cur EXCEPT !.doc = exp.st.doc]
